@@ -70,7 +70,7 @@ pub fn replay(ctx: &mut Ctx, tag: &str, args: &[&str]) {
         "c04" | "c09" | "c10" => c04::case(ctx, tag, args[0], args[1], args[2], args[3]),
         "c05" => c05::case(ctx, args[0], args[1]),
         "c06" | "c08" => c06::case(ctx, tag, args),
-        "c07" => c07::case(ctx, args[0], args[1], args[2], args[3], args[4]),
+        "c07" => c07::case_f(ctx, args[0], args[1], args[2], args[3], args[4], args.get(5).copied().unwrap_or("-")),
         "c11" => c11::case(ctx, args[0]),
         "c11c" => c11::case_ctor(ctx, args[0], args[1]),
         "c11t" => c11::case_stress(ctx, args[0], args[1]),
